@@ -1278,20 +1278,6 @@ func samePixels(a, b image.Image) bool {
 	return true
 }
 
-// findingRecorded: is the finding key listed for C20 in KNOWN_FINDINGS.txt (the harness runs in /verif)
-func findingRecorded(key string) bool {
-	data, err := os.ReadFile("KNOWN_FINDINGS.txt")
-	if err != nil {
-		return false
-	}
-	for _, l := range strings.Split(string(data), "\n") {
-		if strings.HasPrefix(l, "finding:") && strings.Contains(l, "property=C20 ") && strings.Contains(l, "key="+key+" ") {
-			return true
-		}
-	}
-	return false
-}
-
 // gfxHist drives one KittyImage / Sixel through Resize / Show / Destroy on its own Vaxis
 type gfxHist struct {
 	cfg      *hx.Config
@@ -1558,8 +1544,9 @@ func fewColours(cfg *hx.Config, W, H int) image.Image {
 	return img
 }
 
-// corpusNoEncoding is the deterministic replay of the finding kitty-no-encoding (props/C20.v,
-// C20_kitty_no_encoding_refuted): 20x40 pixels, cells 8x16
+// corpusNoEncoding is the deterministic replay of the fixed defect kitty-no-encoding (props/C20.v,
+// C20_kitty_no_encoding_refuted is the behaviour before the fix): 20x40 pixels, cells 8x16; the
+// second Show must place nothing
 func corpusNoEncoding(cfg *hx.Config, s *hx.Stream) {
 	g := newGfxHist(cfg, false, fewColours(cfg, 20, 40))
 	g.resize(3, 3)
@@ -1573,11 +1560,8 @@ func corpusNoEncoding(cfg *hx.Config, s *hx.Stream) {
 
 // genGfxHist: histories of Resize (random, equal, neighbouring, empty boxes; thin pictures that
 // scale to an empty one), Show (roomy, exact and too small windows) and Destroy on one object
-func genGfxHist(cfg *hx.Config, s *hx.Stream) bool {
-	noEnc := findingRecorded("kitty-no-encoding")
-	if noEnc {
-		corpusNoEncoding(cfg, s)
-	}
+func genGfxHist(cfg *hx.Config, s *hx.Stream) {
+	corpusNoEncoding(cfg, s)
 	n := 120
 	if cfg.Thorough() {
 		n = 2400
@@ -1592,9 +1576,6 @@ func genGfxHist(cfg *hx.Config, s *hx.Stream) bool {
 			W, H = 100+cfg.Rand.Intn(200), 1+cfg.Rand.Intn(16)
 		}
 		g := newGfxHist(cfg, sixel, fewColours(cfg, W, H))
-		// a kitty image without a current encoding is placed all the same (finding
-		// kitty-no-encoding): those histories are generated once the finding is recorded
-		mayShow := func() bool { return sixel || noEnc || g.enc }
 		resizes := 0
 		doResize := func() {
 			w, h := 1+cfg.Rand.Intn(6), 1+cfg.Rand.Intn(4)
@@ -1628,9 +1609,8 @@ func genGfxHist(cfg *hx.Config, s *hx.Stream) bool {
 			resizes++
 		}
 		doShow := func() {
-			if !mayShow() {
-				return
-			}
+			// also without a current encoding (before the first Resize, after Destroy, after a
+			// Resize into an empty box): nothing may be placed then
 			if !g.enc {
 				g.tags["no-encoding"] = true
 			}
@@ -1666,7 +1646,6 @@ func genGfxHist(cfg *hx.Config, s *hx.Stream) bool {
 		doShow()
 		g.finish(s, resizes)
 	}
-	return noEnc
 }
 
 // ---------------------------------------------------------------- stream float
@@ -1823,9 +1802,7 @@ func main() {
 
 		gh := hx.NewStream("gfxhist", "model.ImageHist", "gfxhist_case", "c20_gfxhist_mismatches", "c20_gfxhist_violations")
 		gh.ShardMax = 300
-		gh.Known = "c20_gfxhist_known"
-		gh.KnownClass = "kitty-no-encoding"
-		extra["kitty_no_encoding_histories_generated"] = genGfxHist(cfg, gh)
+		genGfxHist(cfg, gh)
 		extra["sixel_rows_below_picture"] = fmt.Sprint(sixelPadRows)
 		histStreams = append(histStreams, bh, gh)
 	}
@@ -1844,7 +1821,7 @@ func main() {
 		"placement: a fixed corpus history (recorded finding resize-same-cells) and random add/keep/move/resize/drop/refresh histories of kitty images on a fake console, placement and image-data control sequences parsed from the output (non-trivial = contains a move, drop, resize or refresh); "+
 		"sixel: the same histories with Sixel images, sixel strings located in the output, marked cells compared with the drawn rectangles; "+
 		"blockhist: one half-block / full-block object per case on pictures with opaque, transparent and threshold-alpha bands, checkerboards and random alpha, and a history of Resize (fitting, growing, shrinking, equal, empty boxes), Draw (into a window of the image's size, a cell more, or smaller so that the image is cut; the cells that changed on a sentinel screen, relative to the window) and Destroy, directed and random (non-trivial = a Draw after a second Resize); "+
-		"gfxhist: one KittyImage / Sixel per case and a history of Resize (random, equal, neighbouring, empty boxes; thin pictures that scale to an empty one), Show (Clear, Draw into a roomy / exact / too small window, Refresh; placement from graphicsNext, placement deletions counted, transmitted PNG / sixel data decoded and compared with resizeImage's picture) and Destroy (non-trivial = two Resizes and a Show); "+
+		"gfxhist: one KittyImage / Sixel per case and a history of Resize (random, equal, neighbouring, empty boxes; thin pictures that scale to an empty one), Show (also before the first Resize, after Destroy and after a Resize into an empty box; Clear, Draw into a roomy / exact / too small window, Refresh; placement from graphicsNext, placement deletions counted, transmitted PNG / sixel data decoded and compared with resizeImage's picture) and Destroy (non-trivial = two Resizes and a Show); "+
 		"quantiser (direct checks, no model): octreequant.Paletted on images of at most 254 colours must reproduce every pixel; "+
 		"float: hardware float64(a)/float64(b)*float64(k) against the integer-only rounding model (non-trivial = inexact)",
 		append([]*hx.Stream{rs, cs, ps, pl, sx, fs}, histStreams...), extra, direct)
